@@ -81,6 +81,16 @@ class SlotRecorder:
         return self.orig.__get__(obj, typ)
 
     def __set__(self, obj, value):
+        if self.name == "_cache":
+            # a URL gets its cache dict exactly once, when it is made; REPLACING the dict of an object that already has one (another
+            # thread may be in the middle of filling it, other holders have memoised into it) is a write to a live object
+            # (unpickling assigns a second EMPTY dict over the empty one __new__ made: nothing was in it yet)
+            try:
+                prev = self.orig.__get__(obj, type(obj))
+                if prev and value is not prev:
+                    self.mon.cache_replaced.append(f"{sorted(prev)[:6]!r} -> {repr(value)[:100]}")
+            except AttributeError:
+                pass
         self.mon.on_write(obj, self.name, value)
         self.orig.__set__(obj, value)
 
@@ -95,6 +105,7 @@ class Monitor:
         self.published = {}  # id -> (obj, birth slots, step)
         self.writes_unpublished = 0
         self.writes_published = []
+        self.cache_replaced = []
         self.installed = False
 
     def install(self):
@@ -158,6 +169,9 @@ class Monitor:
                     self.ctx.fail("cache_entry_changed", case_fn(), f"_cache[{k!r}] of {birth!r}: {v!r} -> {w!r}")
                     break
             self.published[oid] = (obj, birth, step, self._snap(cache))
+        if self.cache_replaced:
+            self.ctx.fail("cache_dict_replaced", case_fn(), f"the _cache dict of an existing URL object was replaced {len(self.cache_replaced)}x, e.g. by {self.cache_replaced[0]}")
+            self.cache_replaced.clear()
         if self.writes_published:
             w = self.writes_published.pop()
             self.ctx.fail("slot_write_after_publication", case_fn(), f"slot {w[0]} of published URL {w[2]!r} written with {w[1]}")
@@ -544,6 +558,10 @@ def run_program(ctx, mon, rng, pid, nsteps, record=None):
                 prog.pool.append((u, slots(u), origin))
             else:
                 prog.pool[rng.randrange(len(prog.pool))] = (u, slots(u), origin)
+        if step["op"] in ("cache_clear", "cache_info", "cache_configure") and isinstance(r, Exc):
+            # the cache API's own outcomes are not compared warm/cold (reporting history is their purpose), but with the valid sizes
+            # used here none of them may FAIL because of what was configured before
+            ctx.fail("cache_api_raises", {"program": pid, "step": si, "record": step, "config": prog.config}, f"{step['op']} raised {r!r} under cache configuration {prog.config}")
         if step["op"] == "cache_configure" and not isinstance(r, Exc):
             prog.config = repr(sorted(step["kw"].items()))
         if owned:
